@@ -35,6 +35,14 @@ type govcRawHolder struct {
 	M map[string]string `json:"m"`
 }
 
+type govcAppender struct{ s string }
+
+func (a *govcAppender) UnmarshalText(b []byte) error {
+	b = append(b, "XXXXXXXXXXXXXXXX"...)
+	a.s = string(b)
+	return nil
+}
+
 type govcWindow struct{ raw []byte }
 
 func (w govcWindow) MarshalJSON() ([]byte, error) { return w.raw, nil }
@@ -168,6 +176,55 @@ func TestGovcBounded(t *testing.T) {
 			}
 			if now := fmt.Sprintf("%q|%q|%q|%q|%v|%v", first.R, first.S, first.B, first.K.b, first.I, first.M); now != snap {
 				record("decoder-earlier-value-altered-by-later-decode", fmt.Sprintf("%s -> %s", snap, now))
+			}
+		}
+	}
+	// Path.Extract results belong to the caller: editing them changes neither the input nor later results
+	for _, pc := range []struct{ path, doc string }{{"$", `{"a":1}`}, {"$.a", `{"a":true}`}, {"$.a", `{"a":false}`}, {"$.a", `{"a":null}`}, {"$.a.b", `{"a":true}`}, {"$.a", `{"a":"str"}`}, {"$.a", `{"a":[1,2]}`}, {"$[0]", `[null]`}, {"$[*]", `[true,{"k":"v"},3]`}} {
+		n++
+		path, err := CreatePath(pc.path)
+		if err != nil {
+			continue
+		}
+		in := []byte(pc.doc)
+		first, err := path.Extract(in)
+		if err != nil {
+			continue
+		}
+		keep := fmt.Sprintf("%q", first)
+		for _, r := range first {
+			for i := range r {
+				r[i] = 'X'
+			}
+		}
+		if string(in) != pc.doc {
+			record("path-result-aliases-input", fmt.Sprintf("path %s doc %s: input is now %q", pc.path, pc.doc, in))
+		}
+		again, _ := path.Extract([]byte(pc.doc))
+		if now := fmt.Sprintf("%q", again); now != keep {
+			record("path-result-aliases-library-memory", fmt.Sprintf("path %s doc %s: first %s, after editing the first result a new extraction gives %s", pc.path, pc.doc, keep, now))
+		}
+	}
+	// the text handed to UnmarshalText ends where the text ends: appending to it does not damage the rest of the document
+	{
+		n++
+		var st struct {
+			A govcAppender `json:"A"`
+			B string       `json:"B"`
+			C govcAppender `json:"C"`
+			D int          `json:"D"`
+		}
+		doc := `{"A":"x","B":"hello","C":"y\n","D":7}`
+		for mode := 0; mode < 2; mode++ {
+			st.B, st.D = "", 0
+			var err error
+			if mode == 0 {
+				err = Unmarshal([]byte(doc), &st)
+			} else {
+				err = NewDecoder(strings.NewReader(doc)).Decode(&st)
+			}
+			if err != nil || st.B != "hello" || st.D != 7 {
+				record(fmt.Sprintf("unmarshaltext-append-damages-document-mode%d", mode), fmt.Sprintf("%s: err=%v B=%q D=%d", doc, err, st.B, st.D))
 			}
 		}
 	}
